@@ -254,7 +254,9 @@ class DocutilsRenderer(RendererProtocol):
                 f"Duplicate reference definition: {dup_ref['label']}",
                 MystWarnings.MD_DEF_DUPE,
                 line=dup_ref["map"][0] + 1,
-                append_to=self.document,
+                # (not to the document: a message after the only top-level section
+                # would stop docutils promoting that section to the document title)
+                append_to=self.current_node,
             )
 
         # Add the wordcount, generated by the ``mdit_py_plugins.wordcount_plugin``.
@@ -811,7 +813,8 @@ class DocutilsRenderer(RendererProtocol):
                 str(error),
                 MystWarnings.HEADING_SLUG,
                 line=token_line(token, default=0),
-                append_to=self.current_node,
+                # inside the new section (at this point the current node is still its parent)
+                append_to=node if isinstance(node, nodes.section) else self.current_node,
             )
         else:
             node["slug"] = slug
